@@ -334,6 +334,9 @@ class StringDataEncoding(DataEncoding):
         elif self.termination_character is not None:
             try:
                 tchar_byte_index = raw_string_buffer.index(self.termination_character)
+                # A match must not straddle two characters of a multi-byte encoding (e.g. 41 00|00 00 in UTF-16LE)
+                while tchar_byte_index % len(self.termination_character) != 0:
+                    tchar_byte_index = raw_string_buffer.index(self.termination_character, tchar_byte_index + 1)
             except ValueError as exc:
                 raise ValueError(f"Reached the end of the raw string buffer {raw_string_buffer} without finding the "
                                  f"termination character {self.termination_character}") from exc
